@@ -69,7 +69,39 @@ func endpointKeys(m *grpcutil.MultiClientConn) []string {
 	return out
 }
 
-func runMuxRPC(seed int64, nOps, poolSize int, slowListener bool) (viol []rec.Violation, counts map[string]int64, inconclusive string, log []string) {
+// muxOpts: variants of a C11 case. Script (when set) replaces the random operations:
+//   add | add-sick (a peer that swallows its reply to the second ping it gets: the session's health check
+//   fails once while the session itself keeps working) | kill-oldest | kill-newest | kill-healthy |
+//   quiet:<ms> (the RPC clients pause: with IdleMS set the gRPC channel goes idle) | wait:<ms>
+type muxOpts struct {
+	SlowListener bool     `json:"slow_listener,omitempty"`
+	IdleMS       int      `json:"idle_ms,omitempty"` // grpc.WithIdleTimeout for the MultiClientConn (0: gRPC's default of 30 min)
+	Script       []string `json:"script,omitempty"`
+}
+
+// ackDropper sits under a harness peer's yamux session and swallows the reply to the k-th ping
+type ackDropper struct {
+	net.Conn
+	mu   sync.Mutex
+	seen int
+	drop int
+}
+
+func (a *ackDropper) Write(b []byte) (int, error) {
+	if len(b) == 12 && b[1] == 2 && b[3]&0x2 != 0 { // yamux header: type ping, flag ACK
+		a.mu.Lock()
+		a.seen++
+		d := a.seen == a.drop
+		a.mu.Unlock()
+		if d {
+			return len(b), nil
+		}
+	}
+	return a.Conn.Write(b)
+}
+
+func runMuxRPC(seed int64, nOps, poolSize int, o muxOpts) (viol []rec.Violation, counts map[string]int64, inconclusive string, log []string) {
+	slowListener := o.SlowListener
 	counts = map[string]int64{}
 	var lmu sync.Mutex
 	t0 := time.Now()
@@ -87,7 +119,11 @@ func runMuxRPC(seed int64, nOps, poolSize int, slowListener bool) (viol []rec.Vi
 	life, cancel := context.WithCancel(context.Background())
 	defer cancel()
 	probe := fakes.NewProbe(1)
-	mcc, err := grpcutil.NewMultiClientConn(life, "verif", grpcutil.MakeDialOptions(nil, metrics.GetGRPCClientMetrics("outbound"))...)
+	dialOpts := grpcutil.MakeDialOptions(nil, metrics.GetGRPCClientMetrics("outbound"))
+	if o.IdleMS > 0 {
+		dialOpts = append(dialOpts, grpc.WithIdleTimeout(time.Duration(o.IdleMS)*time.Millisecond))
+	}
+	mcc, err := grpcutil.NewMultiClientConn(life, "verif", dialOpts...)
 	if err != nil {
 		return nil, counts, "NewMultiClientConn: " + err.Error(), nil
 	}
@@ -120,10 +156,15 @@ func runMuxRPC(seed int64, nOps, poolSize int, slowListener bool) (viol []rec.Vi
 	var pmu sync.Mutex
 	peers := map[int]*peer{}
 	nextID := 0
+	sickNext := false
 	connect := func() *peer {
 		raw, err := net.DialTimeout("tcp", addr, 2*time.Second)
 		if err != nil {
 			return nil
+		}
+		if sickNext {
+			sickNext = false
+			raw = &ackDropper{Conn: raw, drop: 2} // 1st ping: the provider's liveness check; 2nd: the session's first health check
 		}
 		yc := yamux.DefaultConfig()
 		yc.LogOutput = io.Discard
@@ -163,6 +204,7 @@ func runMuxRPC(seed int64, nOps, poolSize int, slowListener bool) (viol []rec.Vi
 	var rmu sync.Mutex
 	var rpcs []rpcRec
 	stop := make(chan struct{})
+	var paused atomic.Bool
 	var wg sync.WaitGroup
 	client := adminservice.NewAdminServiceClient(mcc)
 	for g := 0; g < 3; g++ {
@@ -174,6 +216,10 @@ func runMuxRPC(seed int64, nOps, poolSize int, slowListener bool) (viol []rec.Vi
 				case <-stop:
 					return
 				default:
+				}
+				if paused.Load() {
+					time.Sleep(5 * time.Millisecond)
+					continue
 				}
 				ctx, c := context.WithTimeout(context.Background(), 800*time.Millisecond)
 				r := rpcRec{call: time.Now()}
@@ -253,7 +299,74 @@ func runMuxRPC(seed int64, nOps, poolSize int, slowListener bool) (viol []rec.Vi
 			}
 		}
 	}
-	for op := 0; op < nOps; op++ {
+	byAge := func() []*peer {
+		lv := live()
+		sort.Slice(lv, func(i, j int) bool { return lv[i].id < lv[j].id })
+		return lv
+	}
+	sick := map[int]bool{}
+	for _, step := range o.Script {
+		what, check := "", true
+		switch {
+		case step == "add" || step == "add-sick":
+			sickNext = step == "add-sick"
+			if p := connect(); p != nil {
+				what = fmt.Sprintf("%s peer-%d", step, p.id)
+				sick[p.id] = step == "add-sick"
+			}
+		case step == "kill-oldest" || step == "kill-newest":
+			if lv := byAge(); len(lv) > 0 {
+				p := lv[0]
+				if step == "kill-newest" {
+					p = lv[len(lv)-1]
+				}
+				kill(p)
+				what = fmt.Sprintf("%s peer-%d", step, p.id)
+			}
+		case step == "kill-healthy":
+			for _, p := range byAge() {
+				if !sick[p.id] {
+					kill(p)
+					what += fmt.Sprintf("kill peer-%d ", p.id)
+				}
+			}
+		case strings.HasPrefix(step, "quiet:") || strings.HasPrefix(step, "wait:"):
+			var ms int
+			fmt.Sscanf(step[strings.Index(step, ":")+1:], "%d", &ms)
+			if strings.HasPrefix(step, "quiet:") {
+				paused.Store(true)
+				time.Sleep(time.Duration(ms) * time.Millisecond)
+				paused.Store(false)
+				counts["quiet_periods"]++
+				what = step
+			} else {
+				time.Sleep(time.Duration(ms) * time.Millisecond)
+				check = false
+				for _, ms := range mgr.GetMuxConnections() {
+					if st := ms.State(); st != nil && st.State == session.Error {
+						counts["registered_sessions_seen_in_error_state"]++
+					}
+				}
+			}
+		case step == "quiet-begin":
+			paused.Store(true)
+			check = false
+		case step == "quiet-end":
+			paused.Store(false)
+			counts["quiet_periods"]++
+			what = "quiet period with updates inside"
+		}
+		logf("step %s", step)
+		if what == "" || !check || paused.Load() {
+			continue
+		}
+		counts["updates"]++
+		if !settle(what) {
+			break
+		}
+		probeRPC(what)
+	}
+	for op := 0; op < nOps && o.Script == nil; op++ {
 		lv := live()
 		what := ""
 		switch r := rng.Intn(10); {
@@ -334,6 +447,17 @@ func runMuxRPC(seed int64, nOps, poolSize int, slowListener bool) (viol []rec.Vi
 	return
 }
 
+// scripted cases (by case index; the other indices are random operation sequences)
+var scripted = map[int]muxOpts{
+	// the channel goes idle between updates and calls
+	3: {IdleMS: 300, Script: []string{"add", "quiet:1500", "add", "quiet:1200", "kill-oldest", "quiet:1500", "kill-newest", "add", "quiet:1000"}},
+	// the session list changes while the channel is idle
+	7: {IdleMS: 300, Script: []string{"add", "quiet-begin", "wait:1200", "add", "wait:300", "kill-oldest", "wait:900", "quiet-end", "quiet-begin", "wait:1000", "kill-newest", "wait:200", "add", "wait:900", "quiet-end"}},
+	// a session whose health check failed once (it keeps working) is registered when the list changes
+	11: {Script: []string{"add", "add-sick", "wait:11500", "add", "kill-oldest", "kill-healthy"}},
+	15: {SlowListener: true, Script: []string{"add-sick", "add", "wait:11500", "kill-newest", "add", "kill-healthy"}},
+}
+
 func TestMuxRPC(t *testing.T) {
 	out := rec.Default()
 	n := 24
@@ -346,9 +470,15 @@ func TestMuxRPC(t *testing.T) {
 			continue
 		}
 		pool := 1 + idx%3
-		slow := idx%2 == 1
-		out.Begin(name, map[string]any{"ops": 14, "pool": pool, "slow_listener": slow})
-		viol, counts, inc, log := runMuxRPC(rec.Mix(rec.Seed(), name), 14, pool, slow)
+		o := muxOpts{SlowListener: idx%2 == 1}
+		if idx%4 == 2 {
+			o.IdleMS = 300 // (random operations on a channel that goes idle whenever the clients are quiet for 300 ms)
+		}
+		if sc, ok := scripted[idx]; ok {
+			o, pool = sc, 3
+		}
+		out.Begin(name, map[string]any{"ops": 14, "pool": pool, "options": o})
+		viol, counts, inc, log := runMuxRPC(rec.Mix(rec.Seed(), name), 14, pool, o)
 		l := rec.Line{Case: name, Viol: dedupe(viol), Counts: counts, Class: name}
 		if inc != "" && len(viol) == 0 {
 			l.Verdict, l.Why = rec.Inconclusive, inc
